@@ -59,6 +59,14 @@ Section LinAlg.
     rewrite sumn_sub, sumn_delta_l by assumption. reflexivity.
   Qed.
 
+  Lemma memo2_ok n m (f : @Mat F) i j : (i < n)%nat -> (j < m)%nat -> memo2 n m f i j = f i j.
+  Proof.
+    intros Hi Hj. unfold memo2.
+    rewrite (nth_indep _ [] ((fun i => tab m (f i)) 0%nat)) by (rewrite map_length, seq_length; lia).
+    rewrite (map_nth (fun i => tab m (f i))). rewrite seq_nth by lia. cbn [Nat.add].
+    now apply tab_nth.
+  Qed.
+
   (** *** the block-wise (Schur complement) solve, for arbitrary blocks
       G (n x m) and H (m x n):
         [ I G ]^-1 = [ (I-GH)^-1  0 ] [ I  -G ]
@@ -325,6 +333,11 @@ Section Primitive.
       destruct (Nat.ltb_spec (2 * K) (2 * K)); [lia|reflexivity].
     Qed.
   End Entries.
+
+  Lemma implicit_matrix_tab_ok (c : @PEcfg F) eta lam i j :
+    (i < 2 * cK c + 1)%nat -> (j < 2 * cK c + 1)%nat ->
+    implicit_matrix_tab c eta lam i j = implicit_matrix c eta lam i j.
+  Proof. intros. unfold implicit_matrix_tab. now apply memo2_ok. Qed.
 End Primitive.
 
 Section Operator.
@@ -530,7 +543,7 @@ Section Blockwise.
     Variables eta lam : F.
     Variable x : @Col F.
     Let K := cK c.
-    Let M := implicit_matrix c eta lam.
+    Let M := implicit_matrix_tab c eta lam.
     Let y := col_minus_scaled x eta (implicit_terms false c lam x).
 
     Lemma blockwise_row_div i : (i < K)%nat ->
@@ -538,9 +551,10 @@ Section Blockwise.
     Proof.
       intros Hi. rewrite matvec_tl, tlvec_K. unfold matvec, blk. cbn [Nat.add].
       rewrite (sumn_ext K _ (fun h => (eta * lam) * (geo_weights K (cR c) (cls c) i h * c_temp x h))).
-      2:{ intros h Hh. rewrite tlvec_lt by assumption. unfold M, K. rewrite M01 by assumption. ring. }
+      2:{ intros h Hh. rewrite tlvec_lt by assumption. unfold M, K.
+          rewrite implicit_matrix_tab_ok by lia. rewrite M01 by assumption. ring. }
       rewrite sumn_scal_l. replace (K + K)%nat with (2 * K)%nat by lia.
-      unfold M, K. rewrite M02 by assumption.
+      unfold M, K. rewrite implicit_matrix_tab_ok by lia. rewrite M02 by assumption.
       unfold y. cbn [col_minus_scaled implicit_terms c_div c_temp c_lnps]. unfold geo_diff, geo_diff_dense. ring.
     Qed.
 
@@ -552,7 +566,7 @@ Section Blockwise.
       destruct (Nat.lt_ge_cases i K) as [H1|H1].
       - rewrite !tlvec_lt by assumption.
         rewrite (sumn_ext K _ (fun h => eta * (temp_weights c i h * c_div x h))).
-        2:{ intros h Hh. unfold M, K. rewrite M10 by assumption. ring. }
+        2:{ intros h Hh. unfold M, K. rewrite implicit_matrix_tab_ok by lia. rewrite M10 by assumption. ring. }
         rewrite sumn_scal_l.
         unfold y. cbn [col_minus_scaled implicit_terms c_div c_temp c_lnps temp_implicit].
         unfold temp_implicit_dense, matvec, neg_temp_weights. fold K.
@@ -562,7 +576,7 @@ Section Blockwise.
       - replace i with K by lia. rewrite !tlvec_K.
         replace (K + K)%nat with (2 * K)%nat by lia.
         rewrite (sumn_ext K _ (fun h => eta * (thickness (cb c) h * c_div x h))).
-        2:{ intros h Hh. unfold M, K. rewrite M20 by assumption. ring. }
+        2:{ intros h Hh. unfold M, K. rewrite implicit_matrix_tab_ok by lia. rewrite M20 by assumption. ring. }
         rewrite sumn_scal_l.
         unfold y. cbn [col_minus_scaled implicit_terms c_div c_temp c_lnps]. unfold matvec. fold K. ring.
     Qed.
@@ -578,7 +592,7 @@ Section Blockwise.
     col_eq (cK c) (inverse_blockwise inv c eta lam y) x.
   Proof.
     intros HA HB H0 HK Hy.
-    set (K := cK c) in *. set (M := implicit_matrix c eta lam).
+    set (K := cK c) in *. set (M := implicit_matrix_tab c eta lam).
     set (y0 := col_minus_scaled x eta (implicit_terms false c lam x)).
     assert (Hy' : col_eq K y y0).
     { eapply col_eq_trans; [exact Hy|].
@@ -604,7 +618,8 @@ Section Blockwise.
     { intros g Hg. rewrite matvec_tl. unfold yv. rewrite tlvec_K. unfold matvec, blk, lnps_vec. cbn [sumn Nat.add].
       rewrite (sumn_ext K (fun h => M g (K + h)%nat * tlvec K (c_temp y) (c_lnps y) h)
                  (fun h => (eta * lam) * (geo_weights K (cR c) (cls c) g h * c_temp y h))).
-      2:{ intros h Hh. rewrite tlvec_lt by assumption. unfold M, K. rewrite M01 by assumption. ring. }
+      2:{ intros h Hh. rewrite tlvec_lt by assumption. unfold M, K.
+          rewrite implicit_matrix_tab_ok by lia. rewrite M01 by assumption. ring. }
       rewrite sumn_scal_l.
       replace (2 * K + 0)%nat with (2 * K)%nat by lia. replace (K + K)%nat with (2 * K)%nat by lia.
       unfold geo_diff. fold K. rewrite geo_sparse_eq_dense by assumption. unfold geo_diff_dense, yu. ring. }
@@ -615,7 +630,7 @@ Section Blockwise.
       unfold temp_implicit. rewrite (temperature_sparse_eq_dense feqb_sound) by assumption.
       unfold temp_implicit_dense, matvec, blk, neg_temp_weights. fold K. cbn [Nat.add].
       rewrite (sumn_ext K (fun h => M (K + g)%nat h * yu h) (fun h => eta * (temp_weights c g h * c_div y h))).
-      2:{ intros h Hh. unfold M, K, yu. rewrite M10 by assumption. ring. }
+      2:{ intros h Hh. unfold M, K, yu. rewrite implicit_matrix_tab_ok by lia. rewrite M10 by assumption. ring. }
       rewrite sumn_scal_l.
       rewrite (sumn_ext K (fun h => - temp_weights c g h * c_div y h)
                  (fun h => - (temp_weights c g h * c_div y h))) by (intros; ring).
@@ -625,18 +640,18 @@ Section Blockwise.
     { unfold yv. rewrite tlvec_K. unfold matvec, blk. cbn [Nat.add].
       replace (2 * K + 0)%nat with (2 * K)%nat by lia. replace (K + K)%nat with (2 * K)%nat by lia. reflexivity. }
     assert (W : forall h, (h < K + 1)%nat ->
-              tlvec K (fun g => c_temp y g - eta * (- temp_implicit true c (c_div y) g))
+              tlvec K (memo K (fun g => c_temp y g - eta * (- temp_implicit true c (c_div y) g)))
                       (c_lnps y - matvec K (blk M (2 * K) 0) (c_div y) 0%nat) h
               = yv h - matvec K (blk M K 0) yu h).
     { intros h Hh. destruct (Nat.lt_ge_cases h K) as [H1|H1].
-      - rewrite tlvec_lt by assumption. now apply R2.
+      - rewrite tlvec_lt by assumption. rewrite memo_ok by assumption. now apply R2.
       - replace h with K by lia. rewrite tlvec_K. exact R3. }
     unfold inverse_blockwise. cbv zeta. fold K. fold M.
     repeat split; cbn [c_div c_temp c_lnps].
     - intros g Hg.
       transitivity (matvec K (inv K (schur_div c eta lam))
                       (fun g => yu g - matvec (K + 1) (blk M 0 K) yv g) g); [|exact (S1 g Hg)].
-      apply matvec_ext. intros h Hh. now apply R1.
+      apply matvec_ext. intros h Hh. rewrite memo_ok by assumption. now apply R1.
     - intros g Hg. assert (Hg' : (g < K + 1)%nat) by lia.
       rewrite blk_tl. cbn [Nat.add].
       transitivity (matvec (K + 1) (inv (K + 1)%nat (schur_temp_logp c eta lam))
